@@ -65,10 +65,10 @@ class LitGet(LitBase):
 
     def modifies_spec(self, c0, a):
         L = a.self.t
-        old_idx = c0.get("_interval_index", L)
+        old_idx = c0.get("LIT._interval_index", L)
         alive0 = c0.arr("$alive")
         return {
-            "_interval_index": lambda c0, a, r: r == L,
+            "LIT._interval_index": lambda c0, a, r: r == L,
             "_interval_events": lambda c0, a, r: r == L,
             "$tree_content": lambda c0, a, r: z3.Or(z3.And(is_VRef(old_idx), r == ref(old_idx)),
                                                     z3.Not(z3.Select(alive0, r))),
@@ -79,22 +79,24 @@ class LitGet(LitBase):
     modifies = property(lambda self: self.modifies_spec)
 
     def pre(self, c, a):
+        from specs import forest
         L = a.self.t
-        idx = c.get("_interval_index", L)
-        return {"wf_lazy": lazy.wf_lazy(c, self.elem, L),
-                "coll_typed": lazy.coll_typed(c, self.elem, L),
-                "index_alive": z3.Implies(is_VRef(idx), z3.Select(c.arr("$alive"), ref(idx)))}
+        return {"is_lazy_tree": forest.kind_is(c, L, "LazyIntervalTree"),
+                "elem_kind": forest.lit_elem_is_block(c, L) == z3.BoolVal(self.elem == "ByteBlock"),
+                "wf_static": forest.wf_static(c),
+                "inv_region": forest.inv_region(c)}
 
     def post(self, c0, c1, a, res):
         L = a.self.t
         iv = fresh("iv", Val)
         r = res.t
         return {
-            "returns_index": c1.get("_interval_index", L) == VRef(r),
+            "returns_index": c1.get("LIT._interval_index", L) == VRef(r),
             "content_is_current": z3.ForAll([iv], z3.Select(z3.Select(c1.arr("$tree_content"), r), iv)
                                             == lazy.cur_has(c0, self.elem, L, iv)),
             "no_pending_events": lazy.events(c1, L) == z3.Empty(lazy.SeqVal),
             "index_alive": z3.Select(c1.arr("$alive"), r),
+            "inv_region": __import__("specs.forest", fromlist=["x"]).inv_region(c1),
         }
 
     def apply(self, eng, args, kwargs, st):
@@ -106,7 +108,7 @@ class LitGet(LitBase):
 def _replay_inv(elem):
     def inv(L):
         self_ = L.a.self.t
-        idx0 = L.cL.get("_interval_index", self_)
+        idx0 = L.cL.get("LIT._interval_index", self_)
         base = z3.Select(L.cL.arr("$tree_content"), ref(idx0))
         cur = z3.Select(L.c.arr("$tree_content"), ref(idx0))
         alive0 = L.cL.arr("$alive")
